@@ -9,7 +9,10 @@
     P_ij(t) = sum_k A_ik exp(e_k t) B_kj, AB = I, A diag(e) B = Q/norm;
     with the classical lemma  AB = I & A E B = Q  =>  A e^{Et} B = e^{Qt}  this is the property;
 (c) closed forms (JC69, GeneralJC69): P(0)=I, rows sum to 1, P(s+t)=P(s)P(t), dP/dt|0 = Q;
-(d) NonSymmetric model: the argument handed to matrix_exp is Q/norm * t entry by entry.
+(d) NonSymmetric model: the argument handed to matrix_exp is Q/norm * t entry by entry;
+(e) sample-shaped parameters (one leading sample axis): per sample, q() is the documented matrix of that sample's
+    parameters with the facts of (a) and its own normalisation (codon model on all 61 states with symbolic non-uniform
+    frequencies, general models, HKY, GTR); the eigen path of (b) per sample and branch on [S,B,K] branch lengths.
 """
 from __future__ import annotations
 
@@ -218,14 +221,29 @@ def q_task(task, tr):
         for i in range(S_):
             tot = d.add(tot, d.mul(pi[i], d.div(Q[i][i], ni)))
         goals.append(('one expected substitution per unit time: -sum_i pi_i Q_ii/norm == 1', d.eq(d.neg(tot), 1)))
-        goals.append(('norm > 0', d.lt(0, ni)))
+        # norm > 0 by lemma chaining (the direct goal, a sign condition on a polynomial with S*(S-1) monomials, costs 10 s
+        # for the codon model and times out on a loaded machine): (1) every diagonal entry is negative, (2) with the
+        # diagonal entries generalised to arbitrary negative numbers, -sum_i pi_i q_i > 0; the well-definedness goal then
+        # uses norm > 0 with the norm generalised to an arbitrary positive number
+        dneg = [d.lt(Q[i][i], 0) for i in range(S_)]
+        goals.append(('every diagonal entry of q() is negative', d.and_(*dneg), [], f'{kind}.q:diagonal-sign'))
+        ab_ = cm.abstracted(d, [Q[i][i] for i in range(S_)], dneg + [d.lt(0, ni)])
+        goals.append(('norm > 0', ab_[-1], ab_[:-1], f'{kind}.q:norm > 0'))
+        obl = [d.not_(d.eq(x, 0)) for x in t.denominators]
+        obl += [d.lt(0, x) if k_ == 'pos' else d.le(0, x) for k_, x in t.domains]
+        if obl:
+            allok = d.and_(*obl)
+            ab_ = cm.abstracted(d, [ni], [d.lt(0, ni), allok])
+            goals.append(('every denominator is non-zero and every log/sqrt argument is in its domain', ab_[-1],
+                          ab_[:-1] + ground_axioms(d, [ab_[-1]]), f'{kind}.q:well-defined'))
         tr.sample({'case': label, 'Q[0][1]': d.to_str(Q[0][1], 4), 'norm': d.to_str(ni, 3)})
         dom = param_domain(d, V)
 
         def replay(vals):
             return q_replay(kind, S, mapping, code, vals)
 
-        cm.discharge(tr, d, dom, goals, label, replay=replay, timeout=60.0, varnodes=V, sig_prefix=f'{kind}.q:')
+        cm.discharge(tr, d, dom, goals, label, replay=replay, timeout=120.0, varnodes=V, sig_prefix=f'{kind}.q:',
+                     defined=False, parallel=True)
 
 
 def set_params(dic, vals):
@@ -295,6 +313,65 @@ def _Empirical(*a):
     return _empirical_class()(*a)
 
 
+def _eigen_goals(d, c, branches, pi, Q, ni, kind, S_, pre='', sigpre=None, entries=None):
+    """obligations of the eigen path for ONE matrix: c = eigh contract of the matrix handed to eigh, branches =
+    [(tag, node ids of the returned P (S x S) of that branch, branch-length node)], pi / Q / ni = frequencies,
+    un-normalised rate matrix and norm the result must belong to.  `pre` prefixes the goal labels (sample of a
+    batched call)."""
+    sigpre = f'{kind}.p_t:' if sigpre is None else sigpre
+    ent = [(i, j) for i in range(S_) for j in range(S_)] if entries is None else [tuple(x) for x in entries]
+    e = c['e']._ids.tolist()
+    Vm = c['V']._ids.tolist()
+    sq = [d.sqrt(p) for p in pi]
+    sqrt_ax = []
+    for p, s in zip(pi, sq):
+        sqrt_ax += [d.lt(0, s), d.eq(d.mul(s, s), p)]
+    # A = diag(1/sqrt pi) V,  B = V^T diag(sqrt pi)  -- built here, independently of the traced code
+    A = [[d.div(Vm[i][k], sq[i]) for k in range(S_)] for i in range(S_)]
+    B = [[d.mul(Vm[j][k], sq[j]) for j in range(S_)] for k in range(S_)]
+    goals = []
+    Sm = c['S']._ids.tolist()
+    for i, j in sorted({(min(i, j), max(i, j)) for i, j in ent if i != j}):
+        goals.append((f'{pre}the matrix handed to eigh is symmetric: S[{i},{j}] == S[{j},{i}] (eigh reads one triangle only)',
+                      d.eq(Sm[i][j], Sm[j][i]), sqrt_ax, sigpre + 'eigh-argument-symmetric'))
+    for tag, Pm, tn in branches:
+        form = []
+        for i, j in ent:
+            acc = 0
+            for k in range(S_):
+                acc = d.add(acc, d.mul(d.mul(A[i][k], d.exp(d.mul(e[k], tn))), B[k][j]))
+            form.append(d.eq(Pm[i][j], acc))
+        gl = f'{pre}{tag}P_ij(t) == sum_k A_ik exp(e_k t) B_kj with A = pi^-1/2 V, B = V^T pi^1/2'
+        if sigpre == f'{kind}.p_t:' and not pre and not tag:
+            goals.append((gl, d.and_(*form), sqrt_ax))
+        else:
+            goals.append((gl, d.and_(*form), sqrt_ax, sigpre + 'eigen-formula'))
+    for i, j in ent:
+        ab = 0
+        aeb = 0
+        for k in range(S_):
+            ab = d.add(ab, d.mul(A[i][k], B[k][j]))
+            aeb = d.add(aeb, d.mul(d.mul(A[i][k], e[k]), B[k][j]))
+        # lemma selection: only the contract rows this entry needs
+        goals.append((f'{pre}(AB)[{i},{j}] == I[{i},{j}]', d.eq(ab, 1 if i == j else 0),
+                      sqrt_ax + [c['ortho_rows'][(i, j)]], sigpre + 'AB=I'))
+        # lemma chaining: (1) pure identity  AEB_ij == (sq_j/sq_i) * X_ij  with X_ij = sum_k V_ik e_k V_jk,
+        # (2) with the contract row X_ij == S_ij:  (sq_j/sq_i) * S_ij == Q_ij/norm, (3) conclusion
+        X = c['recon_lhs'][(i, j)]
+        Sij = int(c['S']._ids[i, j])
+        ratio = d.div(sq[j], sq[i])
+        g1 = d.eq(aeb, d.mul(ratio, X))
+        g2 = d.eq(d.mul(ratio, Sij), d.div(Q[i][j], ni))
+        goals.append((f'{pre}(A diag(e) B)[{i},{j}] == (sqrt(pi_j)/sqrt(pi_i)) * (V diag(e) V^T)[{i},{j}]', g1, sqrt_ax,
+                      sigpre + 'AEB=Q'))
+        goals.append((f'{pre}(sqrt(pi_j)/sqrt(pi_i)) * S[{i},{j}] == Q[{i},{j}]/norm', g2, sqrt_ax, sigpre + 'AEB=Q'))
+        qn = d.div(Q[i][j], ni)
+        ab_ = cm.abstracted(d, [aeb, X, Sij, ratio, qn], [g1, g2, c['recon'][(i, j)], d.eq(aeb, qn)])
+        goals.append((f'{pre}(A diag(e) B)[{i},{j}] == Q[{i},{j}]/norm (conclusion, sub-terms abstracted)', ab_[3],
+                      ab_[:3], sigpre + 'AEB=Q'))
+    return goals
+
+
 def eigen_task(task, tr):
     from torchtree.evolution.substitution_model import abstract, general, nucleotide
 
@@ -349,55 +426,9 @@ def eigen_task(task, tr):
             tr.inconc(f'{label}: expected exactly one eigh call, saw {len(con)}')
             return
         c = con[0]
-        e = c['e']._ids.tolist()
-        Vm = c['V']._ids.tolist()
-        sq = [d.sqrt(p) for p in pi]
         dom = param_domain(d, V)
-        sqrt_ax = []
-        for p, s in zip(pi, sq):
-            sqrt_ax += [d.lt(0, s), d.eq(d.mul(s, s), p)]
-        # A = diag(1/sqrt pi) V,  B = V^T diag(sqrt pi)  -- built here, independently of the traced code
-        A = [[d.div(Vm[i][k], sq[i]) for k in range(S_)] for i in range(S_)]
-        B = [[d.mul(Vm[j][k], sq[j]) for j in range(S_)] for k in range(S_)]
         tnode = V['t[0,0]']
-        goals = []
-        Sm = c['S']._ids.tolist()
-        for i in range(S_):
-            for j in range(i + 1, S_):
-                goals.append((f'the matrix handed to eigh is symmetric: S[{i},{j}] == S[{j},{i}] (eigh reads one triangle only)',
-                              d.eq(Sm[i][j], Sm[j][i]), sqrt_ax, f'{kind}.p_t:eigh-argument-symmetric'))
-        form = []
-        for i in range(S_):
-            for j in range(S_):
-                acc = 0
-                for k in range(S_):
-                    acc = d.add(acc, d.mul(d.mul(A[i][k], d.exp(d.mul(e[k], tnode))), B[k][j]))
-                form.append(d.eq(Pi[i][j], acc))
-        goals.append(('P_ij(t) == sum_k A_ik exp(e_k t) B_kj with A = pi^-1/2 V, B = V^T pi^1/2', d.and_(*form), sqrt_ax))
-        for i in range(S_):
-            for j in range(S_):
-                ab = 0
-                aeb = 0
-                for k in range(S_):
-                    ab = d.add(ab, d.mul(A[i][k], B[k][j]))
-                    aeb = d.add(aeb, d.mul(d.mul(A[i][k], e[k]), B[k][j]))
-                # lemma selection: only the contract rows this entry needs
-                goals.append((f'(AB)[{i},{j}] == I[{i},{j}]', d.eq(ab, 1 if i == j else 0),
-                              sqrt_ax + [c['ortho_rows'][(i, j)]], f'{kind}.p_t:AB=I'))
-                # lemma chaining: (1) pure identity  AEB_ij == (sq_j/sq_i) * X_ij  with X_ij = sum_k V_ik e_k V_jk,
-                # (2) with the contract row X_ij == S_ij:  (sq_j/sq_i) * S_ij == Q_ij/norm, (3) conclusion
-                X = c['recon_lhs'][(i, j)]
-                Sij = int(c['S']._ids[i, j])
-                ratio = d.div(sq[j], sq[i])
-                g1 = d.eq(aeb, d.mul(ratio, X))
-                g2 = d.eq(d.mul(ratio, Sij), d.div(Q[i][j], ni))
-                goals.append((f'(A diag(e) B)[{i},{j}] == (sqrt(pi_j)/sqrt(pi_i)) * (V diag(e) V^T)[{i},{j}]', g1, sqrt_ax,
-                              f'{kind}.p_t:AEB=Q'))
-                goals.append((f'(sqrt(pi_j)/sqrt(pi_i)) * S[{i},{j}] == Q[{i},{j}]/norm', g2, sqrt_ax, f'{kind}.p_t:AEB=Q'))
-                qn = d.div(Q[i][j], ni)
-                ab_ = cm.abstracted(d, [aeb, X, Sij, ratio, qn], [g1, g2, c['recon'][(i, j)], d.eq(aeb, qn)])
-                goals.append((f'(A diag(e) B)[{i},{j}] == Q[{i},{j}]/norm (conclusion, sub-terms abstracted)', ab_[3],
-                              ab_[:3], f'{kind}.p_t:AEB=Q'))
+        goals = _eigen_goals(d, c, [('', Pi, tnode)], pi, Q, ni, kind, S_)
         tr.sample({'case': label, 'P[0][1]': d.to_str(Pi[0][1], 5)})
         tr.assumptions.add('classical lemma (trusted): AB = I and A diag(e) B = Q  imply  A exp(diag(e) t) B = exp(Qt)')
 
@@ -647,6 +678,353 @@ def batched_q_task(task, tr):
                      timeout=40, parallel=True)
 
 
+class _FloatDag:
+    """the three DAG builders `exchangeability` uses, on plain floats (concrete oracle of the replays)"""
+
+    @staticmethod
+    def mul(a, b):
+        return a * b
+
+
+def doc_matrix_float(kind, mapping, S, code, vals, pi):
+    """documented rate matrix (r_ij * pi_j off the diagonal, minus the row sum on it) from plain floats"""
+    extra = codon_tables(code) if kind == 'MG94' else None
+    r = exchangeability(kind, mapping, S, vals, _FloatDag, extra)
+    Q = torch.zeros((S, S), dtype=torch.float64)
+    for i in range(S):
+        for j in range(S):
+            if i != j:
+                Q[i, j] = float(r(i, j)) * float(pi[j])
+        Q[i, i] = -Q[i].sum()
+    return Q
+
+
+FACT_SIG = {'rows': 'rows-sum-to-zero', 'off-diagonal': 'negative-rate', 'detailed': 'detailed-balance',
+            'frequencies': 'stationarity'}
+BQX_PARAMS = {'MG94': ('alpha', 'beta', 'kappa', 'freqs'), 'GeneralSymmetric': ('rates', 'freqs'),
+              'GeneralNonSymmetric': ('rates', 'freqs'), 'HKY': ('kappa', 'freqs'), 'GTR': ('rates', 'freqs')}
+
+
+def _bqx_base(key, n, b):
+    if key == 'freqs':
+        raw = [1.0 + 0.37 * ((i * 7 + 3 * b) % 5) + 0.05 * b for i in range(n)]
+        s = sum(raw)
+        return [x / s for x in raw]
+    off = {'kappa': 2.3, 'rates': 0.8, 'alpha': 0.7, 'beta': 1.9}[key]
+    return [(off + 0.31 * i) * (1 + 0.13 * b) for i in range(n)]
+
+
+def _bqx_concrete(kind, S, mapping, code, batched, B, vals):
+    """plain-tensor model holding the batch described by vals (names `<key>@<b>[<i>]`); frequencies renormalised"""
+    m, dic = cm.build(model_json(kind, S, mapping, code or 'Universal'))
+    per = {}
+    for key in BQX_PARAMS[kind]:
+        n = dic[key].tensor.shape[-1]
+        rows = []
+        for b in range(B if key in batched else 1):
+            base = _bqx_base(key, n, b)
+            row = [float(vals.get(f'{key}@{b}[{i}]', base[i])) for i in range(n)]
+            if key == 'freqs':
+                s = sum(row)
+                row = [x / s for x in row]
+            rows.append(row)
+        per[key] = rows
+        dic[key].tensor = torch.tensor(rows if key in batched else rows[0], dtype=torch.float64)
+    return m, dic, per
+
+
+def _bqx_symbolic(d, kind, S, mapping, code, batched, B):
+    """model whose parameters are fresh symbols `<key>@<sample>[<i>]`: batched ones of shape [B, n] (set through the
+    public Parameter setter), unbatched ones [n].  Returns model, dic, name -> node, key -> list of per-sample rows"""
+    m, dic = cm.build(model_json(kind, S, mapping, code or 'Universal'))
+    V = {}
+    per = {}
+    for key in BQX_PARAMS[kind]:
+        n = dic[key].tensor.shape[-1]
+        rows = []
+        for b in range(B if key in batched else 1):
+            st = new_vars(f'{key}@{b}', torch.tensor(_bqx_base(key, n, b), dtype=torch.float64))
+            rows.append(st)
+            for i in st._ids.tolist():
+                V[d.args[i][0]] = i
+        per[key] = rows
+        dic[key].tensor = from_ids(torch.stack([r._ids for r in rows])) if key in batched else rows[0]
+    return m, dic, V, per
+
+
+def _bqx_sample_vars(kind, per, batched, b):
+    """the documented names (`kappa[0]`, `freqs[3]`, ...) of sample b -> node ids"""
+    Vb = {}
+    for key in BQX_PARAMS[kind]:
+        row = per[key][b if key in batched else 0]
+        for i, x in enumerate(row._ids.tolist()):
+            Vb[f'{key}[{i}]'] = x
+    return Vb
+
+
+def bqx_replay(kind, S, mapping, code, batched, B, vals):
+    """real q() / norm() on plain batched tensors against the documented matrix of every sample (float oracle)"""
+    if any(v <= 0 for v in vals.values()):
+        return False, 'counterexample outside the domain'
+    m, dic, per = _bqx_concrete(kind, S, mapping, code, batched, B, vals)
+    try:
+        Q = m.q().to(torch.float64)
+        nrm = m.norm(Q).to(torch.float64)
+    except Exception as e:
+        return True, f'q()/norm() raised {type(e).__name__}: {e}'
+    S_ = dic['freqs'].tensor.shape[-1]
+    if tuple(Q.shape) != (B, S_, S_):
+        return True, f'q() has shape {tuple(Q.shape)}, expected one matrix per sample {(B, S_, S_)}'
+    if tuple(nrm.shape) != (B,):
+        return True, f'norm(q()) has shape {tuple(nrm.shape)}, expected one scalar per sample'
+    for b in range(B):
+        vb = {}
+        for key in BQX_PARAMS[kind]:
+            row = per[key][b if key in batched else 0]
+            for i, x in enumerate(row):
+                vb[f'{key}[{i}]'] = x
+        pi = [vb[f'freqs[{i}]'] for i in range(S_)]
+        want = doc_matrix_float(kind, mapping, S_, code, vb, pi)
+        rs = Q[b].sum(-1).abs().max().item()
+        if rs > 1e-9 * max(1.0, Q[b].abs().max().item()):
+            return True, f'sample {b}: rows of q()[{b}] do not sum to zero (max |row sum| = {rs:.3e})'
+        if not torch.allclose(Q[b], want, rtol=1e-9, atol=1e-12):
+            ij = (Q[b] - want).abs().argmax().item()
+            i, j = divmod(ij, S_)
+            return True, (f'sample {b}: q()[{b}][{i},{j}] = {Q[b][i, j].item()} but the documented matrix of that '
+                          f'sample\'s parameters has {want[i, j].item()}')
+        wn = -(torch.diagonal(want) * torch.tensor(pi, dtype=torch.float64)).sum().item()
+        if abs(nrm[b].item() - wn) > 1e-9 * max(1.0, abs(wn)):
+            return True, f'sample {b}: norm = {nrm[b].item()} but -sum_i pi_i Q_ii of that sample is {wn}'
+    return False, 'agree'
+
+
+def batched_qx_task(task, tr):
+    """q() and norm() with sample-shaped parameters, for the models whose builders work on [..., S, S] tensors (the
+    codon model and the two general models): for every sample and every subset of batched parameters the rate matrix
+    is the documented matrix of THAT sample's parameters, its rows sum to zero, off-diagonals are non-negative,
+    detailed balance / stationarity hold under that sample's frequencies, and Q[b]/norm[b] has one expected
+    substitution per unit time.  Frequencies are symbolic on the simplex (non-uniform witness)."""
+    from torchtree.evolution.substitution_model import abstract, codon, general, nucleotide
+
+    _, kind, S, mapping, code, batched, B = task
+    label = f'batched Q {kind} S={S} mapping={mapping} code={code} batched={sorted(batched)} samples={B}'
+    cls = {'HKY': nucleotide.HKY, 'GTR': nucleotide.GTR, 'GeneralSymmetric': general.GeneralSymmetricSubstitutionModel,
+           'GeneralNonSymmetric': general.GeneralNonSymmetricSubstitutionModel, 'MG94': codon.MG94}[kind]
+    tr.fn(cls.q, abstract.AbstractSubstitutionModel.norm, abstract.SymmetricSubstitutionModel._sample_shape)
+    tr.bounds['batched q()'] = ('one leading sample axis with 2 samples, and 3 samples on the 3-state general models (sample '
+                                'count == state count); thorough tier: 3 samples for MG94, 3..6 for the others incl. 4 samples '
+                                'on 4-state models; batched parameters have shape [samples, n], unbatched ones [n]; subsets '
+                                'of batched parameters as listed in the task labels; MG94: all 61 sense codons of the '
+                                'Universal code in the quick tier, every genetic code in the thorough tier; HKY/GTR with the '
+                                'frequencies alone batched raise (noted by the older batched-q tasks, not examined here)')
+    sig = f'{kind}.q:batched:'
+    with tracing() as t:
+        d = t.dag
+        m, dic, V, per = _bqx_symbolic(d, kind, S, mapping, code, batched, B)
+        S_ = dic['freqs'].tensor.shape[-1]
+        wit = {n: d.vals[i] for n, i in V.items()}
+        try:
+            Q = m.q()
+            nrm = m.norm(Q)
+        except Exception as e:
+            ok, detail = bqx_replay(kind, S, mapping, code, batched, B, wit)
+            tr.regions += 1
+            tr.obligation(f'raises:{label}', nontrivial=False)
+            if ok:
+                tr.violation(sig + 'raises', f'{label}: {detail}', {'label': label, 'values': wit})
+            else:
+                tr.inconc(f'{label}: symbolic execution raised {type(e).__name__}: {e} but the plain-tensor run does not')
+            return
+        tr.witness_runs += 1
+        tr.ops_checked += t.nchecked
+        tr.regions += 1
+        if tuple(Q.shape) != (B, S_, S_) or tuple(nrm.shape) != (B,):
+            ok, detail = bqx_replay(kind, S, mapping, code, batched, B, wit)
+            tr.obligation(f'shape:{label}', nontrivial=False)
+            if ok:
+                tr.violation(sig + 'shape', f'{label}: {detail}', {'label': label, 'values': wit})
+            else:
+                tr.inconc(f'{label}: symbolic q()/norm() shapes {tuple(Q.shape)}/{tuple(nrm.shape)} not reproduced')
+            return
+        extra = codon_tables(code) if kind == 'MG94' else None
+        if kind == 'MG94' and len(extra[0]) != S_:
+            tr.inconc(f'{label}: genetic code table has {len(extra[0])} sense codons, model has {S_} states')
+            return
+        dom = [d.lt(0, i) for i in V.values()]
+        goals = []
+        norm_pos = []
+        for b in range(B):
+            Vb = _bqx_sample_vars(kind, per, batched, b)
+            pi = [Vb[f'freqs[{i}]'] for i in range(S_)]
+            if b == 0 or 'freqs' in batched:
+                s = 0
+                for i in pi:
+                    s = d.add(s, i)
+                dom.append(d.eq(s, 1))
+            r = exchangeability(kind, mapping, S_, Vb, d, extra)
+            Qb = Q._ids[b].tolist()
+            docoff, docdiag = [], []
+            for i in range(S_):
+                rs = 0
+                for j in range(S_):
+                    if i != j:
+                        e = d.mul(r(i, j), pi[j])
+                        rs = d.add(rs, e)
+                        docoff.append(d.eq(Qb[i][j], e))
+                docdiag.append(d.eq(Qb[i][i], d.neg(rs)))
+            goals.append((f'sample {b}: off-diagonal of q()[{b}] == r_ij * pi_j of sample {b}\'s parameters',
+                          d.and_(*docoff), [], sig + 'documented-matrix'))
+            goals.append((f'sample {b}: diagonal of q()[{b}] == minus the sum of the documented off-diagonal row of sample {b}',
+                          d.and_(*docdiag), [], sig + 'documented-matrix'))
+            for gl, node in q_facts(d, Qb, pi, S_, kind != 'GeneralNonSymmetric', label):
+                goals.append((f'sample {b}: {gl}', node, [], sig + FACT_SIG[gl.split()[0]]))
+            nb = int(nrm._ids[b])
+            tot = 0
+            for i in range(S_):
+                tot = d.add(tot, d.mul(pi[i], d.div(Qb[i][i], nb)))
+            goals.append((f'sample {b}: one expected substitution per unit time: -sum_i pi_i Q[{b}]_ii/norm[{b}] == 1',
+                          d.eq(d.neg(tot), 1), [], sig + 'normalisation'))
+            # norm[b] > 0 by lemma chaining (the direct goal is a sign condition on a polynomial with S*(S-1) monomials and
+            # is the one goal that gets close to the time limit on a loaded machine): (1) every diagonal entry is negative,
+            # (2) with the diagonal entries generalised to fresh negative numbers, -sum_i pi_i q_i > 0
+            dneg = [d.lt(Qb[i][i], 0) for i in range(S_)]
+            goals.append((f'sample {b}: every diagonal entry of q()[{b}] is negative', d.and_(*dneg), [],
+                          sig + 'diagonal-sign'))
+            ab_ = cm.abstracted(d, [Qb[i][i] for i in range(S_)], dneg + [d.lt(0, nb)])
+            goals.append((f'sample {b}: norm[{b}] > 0 (diagonal entries generalised to arbitrary negative numbers)', ab_[-1],
+                          ab_[:-1], sig + 'normalisation'))
+            norm_pos.append(d.lt(0, nb))
+        # well-definedness: every denominator (the norms) is non-zero, given the chained conclusions norm[b] > 0
+        obl = [d.not_(d.eq(x, 0)) for x in t.denominators]
+        obl += [d.lt(0, x) if k_ == 'pos' else d.le(0, x) for k_, x in t.domains]
+        if obl:
+            allok = d.and_(*obl)
+            ab_ = cm.abstracted(d, [int(x) for x in nrm._ids.tolist()], norm_pos + [allok])
+            goals.append(('every denominator is non-zero and every log/sqrt argument is in its domain (given norm[b] > 0; '
+                          'the norms generalised to arbitrary positive numbers)',
+                          ab_[-1], ab_[:-1] + ground_axioms(d, [ab_[-1]]), sig + 'well-defined'))
+        tr.sample({'case': label, 'Q[1][0][1]': d.to_str(int(Q._ids[1, 0, 1]), 4), 'norm[1]': d.to_str(int(nrm._ids[1]), 2)})
+
+        def replay(vals):
+            return bqx_replay(kind, S, mapping, code, batched, B, vals)
+
+        cm.discharge(tr, d, dom, goals, label, replay=replay, timeout=180.0, varnodes=V, sig_prefix=sig, threads=4,
+                     parallel=True, defined=False)
+
+
+def ptb_replay(kind, S, mapping, code, batched, B, NB, vals):
+    """real p_t on plain batched tensors and [B, NB, 1] branch lengths against matrix_exp(Q_b/norm_b * t) where Q_b is
+    the documented matrix of sample b (float oracle)"""
+    pos = {k: v for k, v in vals.items() if not k.startswith('t[')}
+    if any(v <= 0 for v in pos.values()):
+        return False, 'counterexample outside the domain'
+    m, dic, per = _bqx_concrete(kind, S, mapping, code, batched, B, pos)
+    bl = torch.tensor([[[abs(vals.get(f't[{b},{k},0]', 0.37 + 0.21 * b + 0.5 * k)) or 0.37] for k in range(NB)]
+                       for b in range(B)], dtype=torch.float64)
+    try:
+        P = m.p_t(bl).to(torch.float64)
+    except Exception as e:
+        return True, f'p_t raised {type(e).__name__}: {e}'
+    S_ = dic['freqs'].tensor.shape[-1]
+    if tuple(P.shape) != (B, NB, 1, S_, S_):
+        return True, f'p_t has shape {tuple(P.shape)}, expected {(B, NB, 1, S_, S_)}'
+    for b in range(B):
+        vb = {}
+        for key in BQX_PARAMS[kind]:
+            for i, x in enumerate(per[key][b if key in batched else 0]):
+                vb[f'{key}[{i}]'] = x
+        pi = torch.tensor([vb[f'freqs[{i}]'] for i in range(S_)], dtype=torch.float64)
+        Qd = doc_matrix_float(kind, mapping, S_, code, vb, pi.tolist())
+        nrm = -(torch.diagonal(Qd) * pi).sum()
+        for k in range(NB):
+            want = torch.matrix_exp(Qd / nrm * bl[b, k, 0])
+            if not torch.allclose(P[b, k, 0], want, rtol=1e-7, atol=1e-9):
+                return True, (f'sample {b} branch {k}: p_t({bl[b, k, 0].item()}) differs from matrix_exp(Q/norm*t) of that '
+                              f'sample by {float((P[b, k, 0] - want).abs().max())}')
+    return False, 'agree with matrix_exp'
+
+
+def batched_pt_task(task, tr):
+    """eigen path with sample-shaped parameters and [samples, branches, categories] branch lengths: for every sample
+    b and branch k, P[b,k,0] = A_b exp(diag(e_b) t[b,k,0]) B_b with (e_b, V_b) the eigh contract of the matrix of
+    sample b, A_b B_b = I and A_b diag(e_b) B_b = Q_b/norm_b where Q_b, norm_b, pi_b belong to sample b"""
+    from torchtree.evolution.substitution_model import abstract
+
+    _, kind, S, mapping, code, batched, B, entries = task
+    NB = 2
+    label = f'batched eigen path {kind} S={S} mapping={mapping} batched={sorted(batched)} samples={B}'
+    tr.fn(abstract.SymmetricSubstitutionModel.p_t, abstract.SymmetricSubstitutionModel.eigen)
+    tr.stubs |= {'torch.linalg.eigh: contract S = V diag(e) V^T, V^T V = V V^T = I (and symmetry of S as an obligation)',
+                 'inverse(V) of the orthonormal eigenvector matrix = V^T'}
+    tr.bounds['batched p_t'] = ('one leading sample axis (2 samples; up to 4 in the thorough tier), branch lengths of shape '
+                                '[samples, 2, 1]; HKY and a 3-state general symmetric model (quick), GTR and general symmetric models with '
+                                'S <= 4 (thorough), every entry. NOT '
+                                'decided: the batched eigen path of the 61-state codon model (the 61-term identities AB = I, '
+                                'A diag(e) B = Q/norm time out in every solver of the portfolio even on four entries); for '
+                                'MG94 the batched claim is q()/norm() per sample plus the model-independent p_t code on '
+                                'the small models')
+    sig = f'{kind}.p_t:batched:'
+    with tracing() as t:
+        d = t.dag
+        m, dic, V, per = _bqx_symbolic(d, kind, S, mapping, code, batched, B)
+        S_ = dic['freqs'].tensor.shape[-1]
+        tt = new_vars('t', torch.tensor([[[0.37 + 0.21 * b + 0.5 * k] for k in range(NB)] for b in range(B)],
+                                        dtype=torch.float64))
+        for i in tt._ids.reshape(-1).tolist():
+            V[d.args[i][0]] = i
+        wit = {n: d.vals[i] for n, i in V.items()}
+
+        def replay(vals):
+            return ptb_replay(kind, S, mapping, code, batched, B, NB, vals)
+
+        try:
+            P = m.p_t(tt)
+            Q = m.q()
+            nrm = m.norm(Q)
+        except Exception as e:
+            ok, detail = replay(wit)
+            tr.regions += 1
+            tr.obligation(f'raises:{label}', nontrivial=False)
+            if ok:
+                tr.violation(sig + 'raises', f'{label}: {detail}', {'label': label, 'values': wit})
+            else:
+                tr.inconc(f'{label}: symbolic execution raised {type(e).__name__}: {e} but the plain-tensor run does not')
+            return
+        tr.witness_runs += 1
+        tr.ops_checked += t.nchecked
+        tr.regions += 1
+        con = [c for c in t.contracts if c['kind'] == 'eigh']
+        if tuple(P.shape) != (B, NB, 1, S_, S_) or tuple(Q.shape) != (B, S_, S_) or tuple(nrm.shape) != (B,):
+            ok, detail = replay(wit)
+            tr.obligation(f'shape:{label}', nontrivial=False)
+            if ok:
+                tr.violation(sig + 'shape', f'{label}: {detail}', {'label': label, 'values': wit})
+            else:
+                tr.inconc(f'{label}: symbolic shapes p_t {tuple(P.shape)} q {tuple(Q.shape)} not reproduced on plain tensors')
+            return
+        if len(con) != B:
+            tr.inconc(f'{label}: expected one eigh contract per sample ({B}), saw {len(con)}')
+            return
+        dom = [d.lt(0, i) for n, i in V.items() if not n.startswith('t[')]
+        goals = []
+        for b in range(B):
+            Vb = _bqx_sample_vars(kind, per, batched, b)
+            pi = [Vb[f'freqs[{i}]'] for i in range(S_)]
+            if b == 0 or 'freqs' in batched:
+                s = 0
+                for i in pi:
+                    s = d.add(s, i)
+                dom.append(d.eq(s, 1))
+            branches = [(f'branch {k}: ', P._ids[b, k, 0].tolist(), int(tt._ids[b, k, 0])) for k in range(NB)]
+            goals += _eigen_goals(d, con[b], branches, pi, Q._ids[b].tolist(), int(nrm._ids[b]), kind, S_,
+                                  pre=f'sample {b}: ', sigpre=sig, entries=entries)
+        tr.sample({'case': label, 'P[1][1][0][0][1]': d.to_str(int(P._ids[1, 1, 0, 0, 1]), 5)})
+        tr.assumptions.add('classical lemma (trusted): AB = I and A diag(e) B = Q  imply  A exp(diag(e) t) B = exp(Qt)')
+        cm.discharge(tr, d, dom, goals, label, replay=replay, timeout=120.0, varnodes=V, sig_prefix=sig, threads=4,
+                     parallel=True)
+
+
 def stale_task(task, tr):
     """p_t after a parameter update equals p_t of a freshly built model holding the same symbols (no stale
     eigendecomposition / rate matrix), for every model incl. the 61-state codon model (a few entries)"""
@@ -726,6 +1104,10 @@ def stale_task(task, tr):
 def run_task(task, tr):
     if task[0] == 'bq':
         return batched_q_task(task, tr)
+    if task[0] == 'bqx':
+        return batched_qx_task(task, tr)
+    if task[0] == 'ptb':
+        return batched_pt_task(task, tr)
     if task[0] == 'stale':
         return stale_task(task, tr)
     {'q': q_task, 'eigen': eigen_task, 'closed': closed_task, 'expm': expm_task}[task[0]](task, tr)
@@ -748,11 +1130,48 @@ def tasks_for(tier):
             ts.append(('bq', kind, frozenset(sub)))
     ts += [('stale', 'HKY', 4, None, None), ('stale', 'GTR', 4, None, None),
            ('stale', 'GeneralSymmetric', 3, [0, 1, 2], None), ('stale', 'MG94', 61, None, 'Universal')]
+    # batched q()/norm() of the models that build [..., S, S] tensors; F = frozenset of batched parameters
+    F = frozenset
+    abk = ('alpha', 'beta', 'kappa')
+    for sub in (abk, abk + ('freqs',), ('freqs',), ('beta',)):
+        ts.append(('bqx', 'MG94', 61, None, 'Universal', F(sub), 2))
+    for sub in (('rates',), ('freqs',), ('rates', 'freqs')):
+        ts.append(('bqx', 'GeneralSymmetric', 3, [0, 1, 2], None, F(sub), 2))
+        ts.append(('bqx', 'GeneralNonSymmetric', 3, [0, 1, 2, 3, 4, 5], None, F(sub), 2))
+    # sample count == state count (axis collisions)
+    ts += [('bqx', 'GeneralSymmetric', 3, [0, 1, 2], None, F(['rates']), 3),
+           ('bqx', 'GeneralSymmetric', 3, [0, 1, 0], None, F(['rates', 'freqs']), 3),
+           ('bqx', 'GeneralSymmetric', 4, [2, 0, 1, 1, 0, 3], None, F(['rates']), 2),
+           ('bqx', 'GeneralNonSymmetric', 3, [1, 0, 0, 2, 1, 1], None, F(['rates', 'freqs']), 3)]
+    # HKY / GTR with frequencies alone batched raise (recorded by the 'bq' tasks above); the other subsets also get the
+    # per-sample facts and the per-sample normalisation
+    ts += [('bqx', 'HKY', 4, None, None, F(['kappa']), 2), ('bqx', 'HKY', 4, None, None, F(['kappa', 'freqs']), 2),
+           ('bqx', 'GTR', 4, None, None, F(['rates']), 2), ('bqx', 'GTR', 4, None, None, F(['rates', 'freqs']), 2)]
+    # batched eigen path
+    ts += [('ptb', 'HKY', 4, None, None, F(['kappa']), 2, None), ('ptb', 'HKY', 4, None, None, F(['kappa', 'freqs']), 2, None),
+           ('ptb', 'GeneralSymmetric', 3, [0, 1, 2], None, F(['freqs']), 2, None)]
     if tier == 'thorough':
         from torchtree.evolution.datatype import CodonDataType
 
         for code in CodonDataType.GENETIC_CODE_NAMES[1:]:
             ts.append(('q', 'MG94', 61, None, code))
+            ts.append(('bqx', 'MG94', 61, None, code, F(abk), 2))
+            ts.append(('bqx', 'MG94', 61, None, code, F(abk + ('freqs',)), 2))
+        for sub in (abk, abk + ('freqs',), ('alpha',), ('kappa',), ('alpha', 'freqs'), ('beta', 'kappa')):
+            ts.append(('bqx', 'MG94', 61, None, 'Universal', F(sub), 3))
+        for sub in (('rates',), ('freqs',), ('rates', 'freqs')):
+            ts += [('bqx', 'GeneralSymmetric', 4, [2, 0, 1, 1, 0, 3], None, F(sub), 4),
+                   ('bqx', 'GeneralSymmetric', 5, list(range(10)), None, F(sub), 3),
+                   ('bqx', 'GeneralNonSymmetric', 4, list(range(12)), None, F(sub), 4),
+                   ('bqx', 'GeneralNonSymmetric', 3, [1, 0, 0, 2, 1, 1], None, F(sub), 3)]
+        ts += [('bqx', 'HKY', 4, None, None, F(['kappa']), 4), ('bqx', 'HKY', 4, None, None, F(['kappa', 'freqs']), 4),
+               ('bqx', 'GTR', 4, None, None, F(['rates']), 4), ('bqx', 'GTR', 4, None, None, F(['rates', 'freqs']), 4),
+               ('bqx', 'GTR', 4, None, None, F(['rates']), 6)]
+        ts += [('ptb', 'GTR', 4, None, None, F(['rates']), 3, None), ('ptb', 'GTR', 4, None, None, F(['rates', 'freqs']), 2, None),
+               ('ptb', 'GeneralSymmetric', 3, [0, 1, 2], None, F(['rates']), 3, None),
+               ('ptb', 'GeneralSymmetric', 3, [0, 1, 2], None, F(['rates', 'freqs']), 3, None),
+               ('ptb', 'GeneralSymmetric', 4, [2, 0, 1, 1, 0, 3], None, F(['rates']), 2, None),
+               ('ptb', 'HKY', 4, None, None, F(['kappa']), 4, None)]
         ts += [('q', 'GeneralSymmetric', 5, list(range(10)), None), ('q', 'GeneralNonSymmetric', 4, list(range(12)), None),
                ('eigen', 'GeneralSymmetric', 4, [0, 1, 0, 0, 1, 0]), ('eigen', 'Empirical', 4, None),
                ('closed', 'GeneralJC69', 4), ('expm', 'GeneralNonSymmetric', 4, list(range(12)))]
@@ -763,6 +1182,10 @@ def body(chk):
     chk.explanation = ('symbolic execution of the real rate-matrix builders and p_t code; polynomial/rational identities '
                        'over symbolic kappa, rates, frequencies (on the simplex), alpha, beta decided by the solver; the '
                        'eigendecomposition enters through its documented contract with entry-wise lemma selection')
+    chk.total.bounds['sample shapes'] = ('unbatched everywhere; one leading sample axis for q()/norm() of HKY, GTR, general '
+                                         'symmetric / non-symmetric and MG94 (all 61 codons, non-uniform symbolic frequencies, '
+                                         'every listed subset of batched parameters) and for the eigen path of the 4-/3-state '
+                                         'models; two or more sample axes are not examined')
     chk.total.bounds['models'] = ('HKY, GTR, GeneralSymmetric (S<=4, several mappings), GeneralNonSymmetric (S=3), MG94 '
                                   '(Universal code quick, all 15 codes thorough), Empirical (symbolic, S=3), JC69, GeneralJC69 k<=5')
     chk.total.assumptions |= {'LG/WAG: concrete tables run through the same EmpiricalSubstitutionModel code that is checked '
